@@ -1,5 +1,124 @@
 import Operon.Lemmas.C02
 import Operon.Gen.MitoFacts
+/-!
+# C02 — the safe evaluator computes the value Python computes on the allowed subset
+
+Property theorems only.  `walk` mirrors `Mitochondria._compute_node`; `pyEval` is the specification: Python's own
+evaluation of the same tree (language reference: operand order, short-circuit `and`/`or` returning the deciding
+operand, chained comparisons with single evaluation, conditional expressions, callee – positional – keyword
+order), over the SAME environment of primitives.  Both are validated on every run: `walk` against the real walker
+and `pyEval` against the real `eval`, over tracer objects that script the environment
+(`harness/vf/props/c02.py`); the operator tables are regenerated from the source by E1.
+
+`pyEval` answers "outside the specified subset" on node classes Python evaluates but the engine must not
+(attribute access etc.); this only makes the statements below harder (refinement) or is backed by the walker
+failing there anyway (`c01_refused_node_fails`).
+-/
 namespace Operon.Mito
-theorem c02_placeholder : True := trivial
+open R
+
+/-- Every entry of the operator tables of the CURRENT source is the `operator.*` function Python itself uses for
+    that AST class (`ast.Div ↦ truediv`, `ast.FloorDiv ↦ floordiv`, `ast.LtE ↦ le`, …); `Not` has no table entry.
+    By `decide` over the tables regenerated from the source by reflection. -/
+theorem c02_tables_match_python : TablesSound Gen.tables :=
+  tablesSound_of_check _ (by decide)
+
+/-- Refinement.  Whenever the walker succeeds, Python's evaluation of the same tree — in a namespace binding exactly
+    the allow-listed names — succeeds with the SAME value.  For every tree, every environment whose comparisons
+    return booleans, every table content that matches Python's operators. -/
+theorem c02_refines (T : Tables) (env : Env) (hT : TablesSound T) (hc : CmpReturnsBool env) (e : Expr) (v : Val)
+    (h : (walk T env e).2 = .ok v) : (pyEval T.names env e).2 = .ok v := by
+  rcases walk_sim T env hT hc e with ⟨er, he⟩ | heq
+  · rw [h] at he; cases he
+  · rw [← heq]; exact h
+
+/-- Whenever Python's evaluation raises, the engine reports failure. -/
+theorem c02_python_raises_engine_fails (T : Tables) (env : Env) (hT : TablesSound T) (hc : CmpReturnsBool env)
+    (e : Expr) (h : (pyEval T.names env e).failed) : (walk T env e).failed := by
+  rcases walk_sim T env hT hc e with hf | heq
+  · exact hf
+  · rw [heq]; exact h
+
+/-- Nothing is dropped or added: on success the walker made exactly the primitive applications, calls (with all
+    positional AND keyword arguments), name lookups and truth tests that Python makes, in the same order. -/
+theorem c02_nothing_dropped (T : Tables) (env : Env) (hT : TablesSound T) (hc : CmpReturnsBool env) (e : Expr)
+    (v : Val) (h : (walk T env e).2 = .ok v) : (walk T env e).1 = (pyEval T.names env e).1 := by
+  rcases walk_sim T env hT hc e with ⟨er, he⟩ | heq
+  · rw [h] at he; cases he
+  · rw [← heq]
+
+/-- The three statements for the engine as it stands (tables of the current source). -/
+theorem c02_current_source_refines (env : Env) (hc : CmpReturnsBool env) (e : Expr) (v : Val)
+    (h : (walk Gen.tables env e).2 = .ok v) :
+    (pyEval Gen.tables.names env e).2 = .ok v ∧ (walk Gen.tables env e).1 = (pyEval Gen.tables.names env e).1 :=
+  ⟨c02_refines _ env c02_tables_match_python hc e v h, c02_nothing_dropped _ env c02_tables_match_python hc e v h⟩
+
+/-- Keyword arguments reach the callee: a successful call passes every keyword value, by name, in order. -/
+theorem c02_keywords_passed (T : Tables) (env : Env) (fn : String) (args kv : List Expr) (kn : List (Option String))
+    (v : Val) (h : (walk T env (.call (.name fn) args kn kv)).2 = .ok v) :
+    ∃ as ks, (walkList T env args).2 = .ok as ∧ (walkKws T env kn kv).2 = .ok ks ∧
+      env.apply (env.lookup fn) as ks = .ok v ∧
+      Act.apply (env.lookup fn) as ks ∈ (walk T env (.call (.name fn) args kn kv)).1 := by
+  unfold walk at h ⊢
+  simp only at h ⊢
+  split at h
+  · rcases h1 : walkList T env args with ⟨t1, r1⟩
+    rcases h2 : walkKws T env kn kv with ⟨t2, r2⟩
+    cases r1 with
+    | error er => simp [R.bind, R.act, h1] at h
+    | ok as =>
+      cases r2 with
+      | error er => simp [R.bind, R.act, h1, h2] at h
+      | ok ks =>
+        refine ⟨as, ks, rfl, rfl, ?_, ?_⟩
+        · simpa [R.bind, R.act, h1, h2] using h
+        · rename_i hm; simp [R.bind, R.act, h1, h2, hm]
+  · simp [R.fail] at h
+
+/-- The logic pathway is `bool(...)` of the walk of the tree in which only the NAMES `true` / `false` were turned
+    into constants. -/
+theorem c02_logic_is_bool_of_walk (T : Tables) (env : Env) (e : Expr) (b : Val)
+    (h : (krebs T env e).2 = .ok b) :
+    ∃ v t, (walk T env (normalise e)).2 = .ok v ∧ (truthyR env v).2 = .ok t ∧ b = .bool t := by
+  unfold krebs at h
+  rcases h1 : walk T env (normalise e) with ⟨t1, r1⟩
+  cases r1 with
+  | error er => simp [R.bind, h1] at h
+  | ok v =>
+    rcases h2 : truthyR env v with ⟨t2, r2⟩
+    cases r2 with
+    | error er => simp [R.bind, h1, h2] at h
+    | ok t => exact ⟨v, t, by simp [h1], by simp [h2], by simpa [R.bind, R.pure, h1, h2] using h.symm⟩
+
+/-- Literal contents are never rewritten: constants (strings included) are untouched by the normalisation, and so
+    is every name other than `true` / `false`. -/
+theorem c02_literals_untouched (v : Val) (n : String) (h1 : n ≠ "true") (h2 : n ≠ "false") :
+    normalise (.const v) = .const v ∧ normalise (.name n) = .name n := by
+  simp [normalise, h1, h2]
+
+/-! ### Non-vacuity -/
+
+private def envInt : Env :=
+  ⟨fun _ => .h 1, fun p _ => if p = .lt then .ok (.bool true) else .ok (.h 2), fun _ => .ok true,
+   fun _ _ kws => .ok (.h (10 + kws.length)), fun _ _ _ => .ok (.h 4)⟩
+
+/-- hypotheses of `c02_refines` are satisfiable: the extracted tables are sound, and a walk succeeds -/
+example : (walk Gen.tables envInt (.binop .add (.name "pi") (.const (.h 5)))).2 = .ok (.h 2) := by rfl
+
+/-- `CmpReturnsBool` holds of an environment that also does something else -/
+example : CmpReturnsBool ⟨fun _ => .h 1, fun p _ => if p = .add then .ok (.h 2) else .ok (.bool true),
+    fun _ => .ok true, fun _ _ _ => .ok (.h 3), fun _ _ _ => .ok (.h 4)⟩ := by
+  intro k a b v h
+  cases k <;> simp [specCmp] at h <;> exact ⟨true, h.symm⟩
+
+/-- `c02_keywords_passed`: `round(pi, ndigits=e)` succeeds and the callee sees one keyword -/
+example : (walk Gen.tables envInt (.call (.name "round") [.name "pi"] [some "ndigits"] [.name "e"])).2 = .ok (.h 11) := by
+  rfl
+
+/-- `c02_python_raises_engine_fails`: Python raises NameError on an unbound name -/
+example : (pyEval Gen.tables.names envInt (.name "zz")).failed := ⟨_, rfl⟩
+
+/-- `c02_logic_is_bool_of_walk`: `true` on the logic pathway -/
+example : (krebs Gen.tables envInt (.name "true")).2 = .ok (.bool true) := by rfl
+
 end Operon.Mito
